@@ -254,6 +254,52 @@ def check_decoder(res, ctx, rng, name):
 STREAM_CASES = []
 
 
+def related_nested(res, ctx, rng):
+    """The records a kernel really logs inside a call - those whose name extends the call's name (BSC_pread_extended_info
+    in BSC_pread, BSC_mmap_extended_info in BSC_mmap ...) - carrying words TIED to the call: every 4-tuple over the
+    call's own START words, 0 and 1.  A decoder that starts to trust such a companion record shows its words, not the
+    START's; the call part must read as without the companion."""
+    import itertools
+    table = ev.bundled_codes()
+    bsd = set(H.inventory()['bsd'])
+    decodable = set(H.inventory()['decodable'])
+    pairs = [(d, cid) for d, cid in H.census_nested() if d in bsd and table[cid] not in decodable and
+             (table[cid].startswith(d) or table[cid].startswith(d.replace('BSC_', 'BSC_sys_', 1))) and table[cid] != d]
+    n = 0
+    for d, cid in pairs:
+        for twin in (d, d + '_nocancel'):
+            if twin not in bsd:
+                continue
+            start, _ = sentinel_start(rng, twin)
+            small = [3, 0x2000, 64, 0x10]
+            spec = domain.TABLE.get(twin, {})
+            start = [small[i] if ('S', i) not in spec else start[i] for i in range(4)]
+            end = [0, 64, 0, 0]
+            try:
+                plain = render_outer(twin, start, end)
+            except Exception:
+                continue                                        # (judged by check_decoder)
+            pool = sorted(set(start) | {0, 1})
+            for words in itertools.product(pool, repeat=4):
+                n += 1
+                if not ctx.mine(n):
+                    continue
+                for q in (H.NONE,):
+                    try:
+                        got = render_outer(twin, start, end, junk=[H.A(cid, q, words)])
+                    except Exception as x:
+                        res.violation(f'c09-raises-{core.exc_name(x)}', f'{twin} with a nested {table[cid]} record {words}: {x!r}',
+                                      {'name': twin, 'start': start, 'end': end})
+                        return
+                    res.count('related_nested_renderings')
+                    if got != plain:
+                        res.violation('c09-words-of-another-event', f'{twin}: with a nested {table[cid]} record carrying '
+                                      f'{[hex(w) for w in words]} the call reads {got!r}, without it {plain!r} (START words '
+                                      f'{[hex(w) for w in start]})', {'name': twin, 'start': start, 'end': end})
+                        return
+        res.case(('related-nested', d, cid))
+
+
 def run(ctx):
     res = core.Result()
     import random
@@ -264,6 +310,7 @@ def run(ctx):
     for i, name in enumerate(names):
         if ctx.mine(i):
             check_decoder(res, ctx, rng, name)
+    related_nested(res, ctx, rng)
     stream.run_all(res, 'c09', STREAM_CASES, rng, 'call renderings', ctx)
     if ctx.shard == 0:
         s, _ = sentinel_start(core.Ctx('C09', ctx.tier, ctx.seed).rng, 'BSC_pread')
